@@ -76,6 +76,10 @@ class C15(Prop):
                                      rng.choice(['path', 'gz', 'bz2', 'mem']), rng.random() < 0.8, rows))
             yield Case('roundtrip', ('csv_append', delim, quote, q, 'utf-8', rng.choice(['path', 'gz', 'bz2', 'mem']),
                                      self._rows(rng, True), self._rows(rng, True)))
+            yield Case('roundtrip', ('tsv_append', rng.choice(['utf-8', 'latin-1', 'cp1252', 'utf-16-le']),
+                                     rng.choice(['path', 'gz', 'mem']), self._rows(rng, True), self._rows(rng, True)))
+            yield Case('roundtrip', ('rewrite', rng.choice(['csv', 'tsv', 'pickle', 'json', 'text']), rng.choice(['path', 'mem', 'gz']),
+                                     self._rows(rng, False, 6), self._rows(rng, False, 2)))
             yield Case('roundtrip', ('pickle', rng.choice(['path', 'gz', 'bz2', 'mem']), rng.random() < 0.8,
                                      gen.freeze(gen.table(rng, maxrows=4, ragged=True))))
             yield Case('roundtrip', ('pickle_append', rng.choice(['path', 'mem']),
@@ -181,6 +185,44 @@ class C15(Prop):
             both, p2 = self._source(sk, td, 'b')
             etl.tocsv(t1 + t2[1:], both, encoding=enc, **kw)
             return self._bytes_of(src, path, sk) == self._bytes_of(both, p2, sk)
+        if kind == 'tsv_append':
+            _, enc, sk, rows1, rows2 = arg
+            t1 = [('h1', 'h2')] + [list(r) for r in rows1]
+            t2 = [('h1', 'h2')] + [list(r) for r in rows2]
+            if not all(self._encodable(cell_text(c), enc) for t in (t1, t2) for r in t for c in r):
+                return True
+            src, path = self._source(sk, td, 'a')
+            etl.totsv(t1, src, encoding=enc)
+            etl.appendtsv(t2, src, encoding=enc)
+            back = list(etl.fromtsv(self._reader_source(src, path), encoding=enc))
+            want = [tuple(cell_text(c) for c in r) for r in t1 + t2[1:]]
+            return back == want
+        if kind == 'rewrite':
+            # writing to a target that already holds a (longer) table replaces it
+            _, fmt, sk, rows1, rows2 = arg
+            t1 = [('h1', 'h2')] + [[cell_text(c) for c in r] for r in rows1]
+            t2 = [('h1', 'h2')] + [[cell_text(c) for c in r] for r in rows2]
+            src, path = self._source(sk, td, 'a')
+            rect = lambda t: [r for r in t if len(r) == 2]   # noqa
+            if fmt == 'csv':
+                etl.tocsv(t1, src, encoding='utf-8'); etl.tocsv(t2, src, encoding='utf-8')   # noqa
+                return list(etl.fromcsv(self._reader_source(src, path), encoding='utf-8')) == [tuple(r) for r in t2]
+            if fmt == 'tsv':
+                etl.totsv(t1, src, encoding='utf-8'); etl.totsv(t2, src, encoding='utf-8')   # noqa
+                return list(etl.fromtsv(self._reader_source(src, path), encoding='utf-8')) == [tuple(r) for r in t2]
+            if fmt == 'pickle':
+                etl.topickle(t1, src); etl.topickle(t2, src)   # noqa
+                return list(etl.frompickle(self._reader_source(src, path))) == [tuple(r) for r in t2]
+            if fmt == 'json':
+                etl.tojson(rect(t1), src); etl.tojson(rect(t2), src)   # noqa
+                back = list(etl.fromjson(self._reader_source(src, path), header=['h1', 'h2']))
+                return back == [tuple(r) for r in rect(t2)]
+            if fmt == 'text':
+                kw = dict(encoding='utf-8', template='{h1}|{h2}\n', prologue='P\n', epilogue='E\n')
+                etl.totext(rect(t1), src, **kw); etl.totext(rect(t2), src, **kw)   # noqa
+                data = self._bytes_of(src, path, sk).decode('utf-8')
+                return data == 'P\n' + ''.join('%s|%s\n' % tuple(r) for r in rect(t2)[1:]) + 'E\n'
+            raise ValueError(fmt)
         if kind == 'pickle':
             _, sk, write_header, t = arg
             src, path = self._source(sk, td)
